@@ -37,6 +37,12 @@ struct TokenParser {
     parse_steps: usize,
     max_parse_steps: usize,
     budget_exhausted: bool,
+    /// Depth of the expression being parsed (nested sub-expressions plus the operator or
+    /// postfix chain built so far): the evaluator, the planner's tree walks and `Drop` all
+    /// recurse over the tree that comes out, so its depth has to stay bounded.
+    expr_depth: usize,
+    /// Nesting of sub-queries (`CALL { }`, `EXISTS { }`).
+    query_depth: usize,
 }
 
 impl TokenParser {
@@ -53,6 +59,8 @@ impl TokenParser {
     const BP_NOT: u8 = 40;
     const PARSE_STEP_FACTOR: usize = 2_048;
     const PARSE_STEP_FLOOR: usize = 50_000;
+    const MAX_EXPRESSION_DEPTH: usize = 500;
+    const MAX_QUERY_DEPTH: usize = 32;
 
     fn new(tokens: Vec<Token>) -> Self {
         let max_parse_steps = Self::max_parse_steps_for(tokens.len());
@@ -63,6 +71,8 @@ impl TokenParser {
             parse_steps: 0,
             max_parse_steps,
             budget_exhausted: false,
+            expr_depth: 0,
+            query_depth: 0,
         }
     }
 
@@ -91,8 +101,29 @@ impl TokenParser {
         }
     }
 
+    /// Fails (as a complexity error) when the expression under construction would get deeper
+    /// than the limit; `extra` is the length of the chain the caller has built so far.
+    fn check_expression_depth(&mut self, extra: usize) -> Result<(), Error> {
+        if self.expr_depth.saturating_add(extra) > Self::MAX_EXPRESSION_DEPTH {
+            self.budget_exhausted = true;
+            return Err(Self::parser_complexity_error());
+        }
+        Ok(())
+    }
+
     fn parse_query(&mut self) -> Result<Query, Error> {
         self.ensure_budget()?;
+        self.query_depth += 1;
+        if self.query_depth > Self::MAX_QUERY_DEPTH {
+            self.budget_exhausted = true;
+            return Err(Self::parser_complexity_error());
+        }
+        let query = self.parse_query_body();
+        self.query_depth -= 1;
+        query
+    }
+
+    fn parse_query_body(&mut self) -> Result<Query, Error> {
         let mut clauses = self.parse_single_query_clauses()?;
         let mut union_mode: Option<bool> = None;
 
@@ -1002,7 +1033,19 @@ impl TokenParser {
 
     fn parse_expression_bp(&mut self, min_bp: u8) -> Result<Expression, Error> {
         self.ensure_budget()?;
+        self.expr_depth += 1;
+        let parsed = match self.check_expression_depth(0) {
+            Ok(()) => self.parse_expression_bp_at_depth(min_bp),
+            Err(err) => Err(err),
+        };
+        self.expr_depth -= 1;
+        parsed
+    }
+
+    fn parse_expression_bp_at_depth(&mut self, min_bp: u8) -> Result<Expression, Error> {
         let mut lhs = self.parse_prefix_expression()?;
+        // Every operator applied below wraps `lhs` once more: the chain counts as depth.
+        let mut chain = 0usize;
 
         // Postfix null predicates: <expr> IS [NOT] NULL
         loop {
@@ -1017,6 +1060,8 @@ impl TokenParser {
                 BinaryOperator::IsNull
             };
             lhs = Self::binary_expr(lhs, op, Expression::Literal(Literal::Null));
+            chain += 1;
+            self.check_expression_depth(chain)?;
         }
 
         loop {
@@ -1055,13 +1100,19 @@ impl TokenParser {
                     let chained_cmp = Self::binary_expr(chain_left, next_op, next_rhs.clone());
                     combined = Self::binary_expr(combined, BinaryOperator::And, chained_cmp);
                     chain_left = next_rhs;
+                    chain += 1;
+                    self.check_expression_depth(chain)?;
                 }
 
                 lhs = combined;
+                chain += 1;
+                self.check_expression_depth(chain)?;
                 continue;
             }
 
             lhs = Self::binary_expr(lhs, op, rhs);
+            chain += 1;
+            self.check_expression_depth(chain)?;
         }
 
         Ok(lhs)
@@ -1327,7 +1378,11 @@ impl TokenParser {
         };
 
         // Postfix operators: property access, indexing/slicing, label predicates.
+        // Each one wraps `expr` once more: the chain counts as depth.
+        let mut chain = 0usize;
         loop {
+            chain += 1;
+            self.check_expression_depth(chain)?;
             if self.match_token(&TokenType::Dot) {
                 let property = self.parse_property_key()?;
                 expr = match expr {
